@@ -28,6 +28,7 @@ def parseEv (w : String) : Option Ev :=
     | 'O' :: 'A' :: r => do some (.oldAddr (← nat? r) (b == "free"))
     | 'R' :: 'L' :: r => do some (.released (← nat? r) (b == "free"))
     | ['T', 'R'] => b.toNat?.map .stopRet
+    | ['S', 'F'] => b.toNat?.map .stillInFlight
     | ['S', 'S'] => some (.stream (b.splitOn ">"))
     | _ => none
   | [a, b, c] =>
